@@ -25,7 +25,7 @@ for p in files(".vpl"):
     if 0 < len(data) <= 3000 and n < 48:
         put("c41_parser", name_of(p, data), data)
         # c43: 2 positions (line 3 col 7, line 0 col 0) + document; first byte selects the count
-        hdr = bytes([1]) + struct.pack("<HHHH", 3, 7, 0, 0)
+        hdr = bytes([1]) + struct.pack("<HHHH", 3, 7, 0, 0)  # int_in_range(1..=2): byte 1 -> 2 positions
         put("c43_lsp", name_of(p, data), hdr + data)
         n += 1
 # hand-made small seeds that reach blocks, declaration loops, non-ASCII text and error paths
@@ -40,7 +40,7 @@ extra = {
 }
 for k, v in extra.items():
     put("c41_parser", "hand_" + k, v.encode())
-    put("c43_lsp", "hand_" + k, bytes([2]) + struct.pack("<HHHHHH", 0, 8, 1, 0xFFFF, 2, 3) + v.encode())
+    put("c43_lsp", "hand_" + k, bytes([1]) + struct.pack("<HHHH", 0, 8, 1, 0xFFFF) + v.encode())
 n = 0
 for p in files(".evt"):
     data = open(p, "rb").read()
